@@ -68,6 +68,9 @@ type c14Case struct {
 	// server was attempted; the file was then rewritten.  The measured connection is judged by what
 	// the file holds NOW.
 	PriorKH string `json:"prior_kh,omitempty"`
+	// RemoveKH (standard transport, strict): the known-hosts file exists when the driver is created and
+	// is gone when Open runs: no known-hosts file is available then, and the connection must fail
+	RemoveKH bool `json:"remove_kh,omitempty"`
 }
 
 func (c *c14Case) hasPw() bool  { return c.Auth == "password" || c.Auth == "both" }
@@ -154,6 +157,12 @@ func runC14(seed uint64, n int, tier string) {
 			tr = "system-real"
 		}
 		cases = append(cases, genC14(r, tr, r.Chance(2, 3), r.Pick(c14KHs), r.Pick(c14Auths)))
+	}
+	// the known-hosts file removed between creation and Open
+	for _, kh := range []string{"match", "other", "empty"} {
+		c := genC14(rng.Fork(), "standard", true, kh, "password")
+		c.RemoveKH = true
+		cases = append(cases, c)
 	}
 	// histories: the known-hosts file rewritten between two connections (both directions of the verdict)
 	for _, pk := range [][2]string{{"match", "other"}, {"match", "empty"}, {"other", "match"}, {"empty", "match"}, {"match", "revoked"}} {
@@ -718,6 +727,11 @@ func runC14Case(id string, c *c14Case) {
 			c14Fail(cs, "C14:newdriver", "NewDriver failed: "+err.Error())
 			return
 		}
+		if c.RemoveKH && c.Transport == "standard" {
+			_ = os.Remove(f.kh)
+			cs.Kind += "/kh-removed"
+			cs.Line = "" // oracle only: the model's known-hosts file does not change between creation and Open
+		}
 		openErr = d.Open()
 	}
 	connected := openErr == nil
@@ -953,8 +967,10 @@ func runC14Std(cs *Case, c *c14Case, f *c14Files, srv *c14Server, d *generic.Dri
 	cs.Obs = fmt.Sprintf("std %s %s %s %s", tag, b2i(connected), auth, user)
 
 	// ---- oracle, straight from the property
-	expect := !c.Strict || c.KH == "match"
+	expect := (!c.Strict || c.KH == "match") && !c.RemoveKH
 	switch {
+	case connected && c.RemoveKH:
+		c14Fail(cs, "C14:strict-ignored", "connected although the known-hosts file was gone when Open ran (strict checking, no known-hosts file available)")
 	case connected && !expect:
 		c14Fail(cs, "C14:strict-ignored", "connected although the known-hosts file does not have the server key (kh="+c.KH+")")
 	case c.Strict && rogueAccepted:
